@@ -27,7 +27,7 @@ import os
 
 from . import aoefdoc, arrangement, render, specs
 from .canontools import canon_diff
-from .core import Counter, HarnessError, Violation, jdump, sha
+from .core import HarnessError, jdump, sha
 from .nodes import NodeCrashed
 from .sim_aoef import AoefSim, FILES, _brief
 
